@@ -369,6 +369,7 @@ func runC05(c *Ctx) {
 		sysMem := c.extConst(abiPkg, "EFIResourceSystemMemory")
 		unacc := c.extConst(abiPkg, "EFIResourceMemoryUnaccepted")
 		seen := map[int]int{}
+		listed := 0
 		r := &esp.Rule{Name: "C05.R3"}
 		hobRegion := map[*ssa.Function]bool{}
 		for _, g := range unexportedRegion(f) {
@@ -404,6 +405,13 @@ func runC05(c *Ctx) {
 					}
 				}
 				return []esp.Ev{{ID: evDesc, Name: "resource descriptor (" + kind + ")", ErrIdx: -1, BoolIdx: -1, Data: kind}}
+			case cal.Name() == "WriteTo" && cal.Signature.Recv() != nil && namedIs(cal.Signature.Recv().Type(), abiPkg, "EFIHOBResourceDescriptor") &&
+				!(len(in.Parent().Params) > 0 && namedIs(in.Parent().Params[0].Type(), abiPkg, "EFIResourceType")):
+				// (not the write inside a typed helper such as appendTDHobResource(type, …, w), which is an event itself)
+				// a descriptor taken from a prepared list (its kind was decided where the list was built: stage A below)
+				seen[evDesc]++
+				listed++
+				return []esp.Ev{{ID: evDesc, Name: "resource descriptor (from the prepared list)", ErrIdx: -1, BoolIdx: -1, Data: "listed"}}
 			case calleeIs(call, "(*bytes.Buffer).Write"):
 				seen[evPad]++
 				return []esp.Ev{{ID: evPad, Name: "padding write", ErrIdx: -1, BoolIdx: -1}}
@@ -433,6 +441,11 @@ func runC05(c *Ctx) {
 						return s.Set(bUnaccepted), "R3: an unaccepted-memory descriptor is written in state " + st
 					}
 					return s.Set(bUnaccepted), ""
+				case "listed":
+					if !s.Has(bHandoff) || s.Has(bEnd) {
+						return s.Set(bPrivate), "R3: the prepared descriptors are written in state " + st
+					}
+					return s.Set(bPrivate), ""
 				default:
 					return s, "R3: a resource descriptor of a type other than system memory / unaccepted memory is written into the hand-off block"
 				}
@@ -458,6 +471,90 @@ func runC05(c *Ctx) {
 		e := c.engine(r)
 		e.Run(f, esp.State{})
 		n := c.reportEngine(e, "R3", func(v *esp.Violation) string { return name + ":record order" })
+		// Stage A: where the builder serialises a prepared list of descriptors, the list is put together by a function
+		// of the package that makes the descriptors in the required order — every system-memory (declared section)
+		// descriptor before any unaccepted-memory one — and the builder is handed that function's result.
+		if listed > 0 {
+			isDescCtor := func(call ssa.CallInstruction) bool {
+				cal := call.Common().StaticCallee()
+				return cal != nil && load.RelPkg(cal) == "ovmf" && len(call.Common().Args) >= 3 && namedIs(call.Common().Args[0].Type(), abiPkg, "EFIResourceType")
+			}
+			var producers []*ssa.Function
+			for _, pf := range c.P.RepoFunctions() {
+				if load.RelPkg(pf) == "ovmf" && !c.isTestFunc(pf) && pf != f && !hobRegion[pf] && len(callsIn(pf, isDescCtor)) > 0 {
+					producers = append(producers, pf)
+				}
+			}
+			c.S.Floor("R3", "functions preparing the descriptor list serialised by "+name, 1, len(producers))
+			for _, pf := range producers {
+				made := 0
+				pr := &esp.Rule{Name: "C05.R3a"}
+				pr.Relevant = func(*ssa.Function) bool { return false }
+				pr.Match = func(in ssa.Instruction) []esp.Ev {
+					call, ok := in.(ssa.CallInstruction)
+					if !ok || !isDescCtor(call) {
+						return nil
+					}
+					made++
+					kind := "?"
+					if k, ok := call.Common().Args[0].(*ssa.Const); ok && k.Value != nil {
+						if sysMem != nil && constant.Compare(constant.ToInt(k.Value), token.EQL, constant.ToInt(sysMem)) {
+							kind = "private"
+						} else if unacc != nil && constant.Compare(constant.ToInt(k.Value), token.EQL, constant.ToInt(unacc)) {
+							kind = "unaccepted"
+						}
+					}
+					return []esp.Ev{{ID: evDesc, Name: "descriptor made (" + kind + ")", ErrIdx: -1, BoolIdx: -1, Data: kind}}
+				}
+				pr.Step = func(x *esp.Ctx, s esp.State, ev esp.Ev, ph esp.Phase) (esp.State, string) {
+					if ph != esp.AtCall {
+						return s, ""
+					}
+					switch ev.Data {
+					case "private":
+						if s.Has(bUnaccepted) {
+							return s.Set(bPrivate), "R3: a declared-section descriptor is put on the list after an unaccepted-memory one"
+						}
+						return s.Set(bPrivate), ""
+					case "unaccepted":
+						return s.Set(bUnaccepted), ""
+					}
+					return s, "R3: a resource descriptor of a type other than system memory / unaccepted memory is put on the hand-off list"
+				}
+				pe := c.engine(pr)
+				pe.Run(pf, esp.State{})
+				seen[evDesc] += made
+				if c.reportEngine(pe, "R3", func(v *esp.Violation) string { return load.FuncName(pf) + ":list order" }) == 0 {
+					c.S.OK("R3", load.FuncName(pf)+":list order", c.pos(pf.Pos()), fmt.Sprintf("declared-section descriptors before unaccepted-memory ones (%d configurations)", pe.Configs), true)
+				}
+			}
+			// the list the builder serialises is a producer's result
+			linked := false
+			for _, site := range c.funcsCalling(func(call ssa.CallInstruction) bool { return call.Common().StaticCallee() == f }) {
+				for _, call := range callsIn(site, func(call ssa.CallInstruction) bool { return call.Common().StaticCallee() == f }) {
+					for _, a := range call.Common().Args {
+						if st, ok := a.Type().Underlying().(*types.Slice); !ok || !namedIs(st.Elem(), abiPkg, "EFIHOBResourceDescriptor") {
+							continue
+						}
+						if sl.Derives(a, func(v ssa.Value) bool {
+							pc, ok := v.(*ssa.Call)
+							if !ok {
+								return false
+							}
+							for _, pf := range producers {
+								if pc.Call.StaticCallee() == pf {
+									return true
+								}
+							}
+							return false
+						}) {
+							linked = true
+						}
+					}
+				}
+			}
+			c.S.Check(linked, "R3", name+":serialises the prepared list", c.pos(f.Pos()), "the list written is the result of the function that prepares it", "the descriptor list the builder serialises does not come from the function that prepares the descriptors in order")
+		}
 		c.S.Floor("R3", "resource descriptor writes in "+name, 2, seen[evDesc])
 		c.S.Floor("R3", "end-of-list writes in "+name, 1, seen[evEnd])
 		if n == 0 {
